@@ -1009,7 +1009,8 @@ pub mod verif_hooks {
 
   /// The shipped `RealDriver` (errno mapping of the two readers, the writer, mio registration and
   /// the mapping of mio tokens to devices) on file descriptors the simulator owns, e.g. pipes.
-  /// `poll_now` is the real `poll` with a zero timeout, so it never waits and reads no clock.
+  /// `poll_now` is the real `poll` with a zero timeout, so it never waits and reads no clock;
+  /// `poll` passes the caller's timeout on unchanged.
   pub struct VerifRealDriver { inner: RealDriver, registry: Option<RealPollRegistry> }
 
   impl VerifRealDriver {
@@ -1028,9 +1029,12 @@ pub mod verif_hooks {
       self.registry = Some(self.inner.register_poll()?);
       Ok(())
     }
-    pub fn poll_now(&mut self) -> Result<VPoll, String> {
+    pub fn poll_now(&mut self) -> Result<VPoll, String> { self.poll(Some(Duration::from_millis(0))) }
+    /// The real `poll` with the caller's own timeout. Meant for a simulator that answers the
+    /// `epoll_wait` system call underneath itself (so nothing really waits).
+    pub fn poll(&mut self, timeout: Option<Duration>) -> Result<VPoll, String> {
       let registry = self.registry.as_mut().ok_or("poll before register_poll".to_string())?;
-      Ok(match self.inner.poll(registry, Some(Duration::from_millis(0)))? {
+      Ok(match self.inner.poll(registry, timeout)? {
         PollResult::DeviceEvent(ds) => VPoll::Devices(ds.into_iter().map(|d| match d {
           Device::Keyboard => VDevice::Keyboard,
           Device::Tablet => VDevice::Tablet
